@@ -27,6 +27,10 @@ func main() {
 		// harness rec-twice <fn> <quick|thorough> <seed>
 		seed, _ := strconv.ParseInt(os.Args[4], 10, 64)
 		recTwice(os.Args[2], os.Args[3], seed)
+	case "rec-reverse":
+		// harness rec-reverse <fn> <quick|thorough> <seed>   (child process of rec-twice)
+		seed, _ := strconv.ParseInt(os.Args[4], 10, 64)
+		recReverse(os.Args[2], os.Args[3], seed)
 	case "gen":
 		// harness gen <family> <tier> <seed> <workdir> <govalid binary> <repo>
 		genMain(os.Args[2:])
